@@ -715,14 +715,14 @@ def id_config(rng, a_id, b_id, small_set=False):
     strs = [b"/ipfs/id/1.0.0", b"/ipfs/kad/1.0.0", b"/a", "ü→".encode(), b"litep2p/9"]
     pv = rng.choice(strs + [b""])
     agent = rng.choice(strs + [None, None, b""])
-    nprot = rng.choice([0, 1, 3, 3, 10, 40, 200])
+    nprot = rng.choice([0, 1, 3, 3, 10, 40, 200, 400])
     protos = [rng.choice(strs) + (b"/%d" % k if rng.random() < 0.7 else b"") for k in range(nprot)]
     nl = rng.choice([0, 1] if small_set else [0, 1, 2, 4, 9])
     listen = [id_addr(rng, ids, True) for _ in range(nl)]
     public = [] if small_set else [id_addr(rng, ids, True) for _ in range(rng.choice([0, 0, 1, 3]))]
     if small_set and listen:
         public = [listen[0]] * rng.choice([0, 1])
-    conn = rng.choice([0, 1, 1, 1])
+    conn = rng.choice([0, 1, 1, 1, 2])
     ep = id_addr(rng, ids, True)
     return (f"conn={conn} ep={hx(ep)} pv={hx(pv)} agent={'none' if agent is None else hx(agent)} "
             f"protos={s_lb(protos)} listen={s_lb(listen)} public={s_lb(public)}")
@@ -1213,6 +1213,13 @@ def stats(case, out, acc):
         t = op.split()
         kind = t[0] + (":" + t[1] if t[0] in ("pb", "rt", "encpb", "enc") else "")
         body, alloc = split_alloc(o)
+        if t[0] in ("idout", "idin", "idrt"):
+            cls = "event" if "event peer=" in body else "nothing-sent" if body.startswith("sent - ") else \
+                "sent" if body.startswith("sent") else "noevent"
+            bump(acc, f"{kind}:{cls}")
+            if alloc is not None:
+                acc["max_alloc_identify"] = max(acc.get("max_alloc_identify", 0), alloc)
+            continue
         res = "ok" if body.startswith("ok") or (t[0] == "kad" and not body.startswith("none")) else "rejected"
         bump(acc, f"{kind}:{res}")
         if alloc is not None:
